@@ -5,6 +5,7 @@
 set -u
 HERE="$(cd "$(dirname "$0")/.." && pwd)"
 SPEC="$1"; shift
+case "$SPEC" in revert:*) ;; *) SPEC="$(realpath "$SPEC")" ;; esac
 ID="$1"; shift
 W="$(mktemp -d /tmp/vd-mut-XXXXXX)"
 trap 'git -C /repo worktree remove --force "$W/repo" >/dev/null 2>&1; rm -rf "$W"' EXIT
@@ -13,7 +14,7 @@ git -C /repo worktree add --detach "$W/repo" HEAD >/dev/null 2>&1 || { echo "wor
 git -C /repo diff HEAD | (cd "$W/repo" && git apply --allow-empty 2>/dev/null)
 case "$SPEC" in
   revert:*) (cd "$W/repo" && git revert --no-commit "${SPEC#revert:}" >/dev/null) || { echo "revert failed"; exit 2; } ;;
-  *) (cd "$W/repo" && git apply "$(realpath "$SPEC")") || { echo "patch failed"; exit 2; } ;;
+  *) (cd "$W/repo" && git apply "$SPEC") || { echo "patch failed"; exit 2; } ;;
 esac
 mkdir -p "$W/ev" "$W/rp"
 VERIF_REPO="$W/repo" VERIF_EVIDENCE_DIR="$W/ev" VERIF_REPLAY_DIR="$W/rp" "$HERE/check" "$ID" "$@" > "$W/out.txt" 2>&1
